@@ -231,7 +231,11 @@ func (r *Recorder) Exclude(reason string) {
 func (r *Recorder) SetExhaustive() { r.mu.Lock(); r.exhaustive = true; r.mu.Unlock() }
 
 // Assume records an assumption for the evidence file.
-func (r *Recorder) Assume(s string) { r.mu.Lock(); r.assumptions = append(r.assumptions, s); r.mu.Unlock() }
+func (r *Recorder) Assume(s string) {
+	r.mu.Lock()
+	r.assumptions = append(r.assumptions, s)
+	r.mu.Unlock()
+}
 
 // ReplayFile is the on-disk form of a failing (or regression) case.
 type ReplayFile struct {
